@@ -4,7 +4,9 @@
  * exclusivity asserted under the lock; plain lock/unlock users mixed in.
  * args: seed= progs= nw=
  */
+#ifndef _GNU_SOURCE
 #define _GNU_SOURCE
+#endif
 #include "hkm.h"
 
 typedef struct {
